@@ -105,6 +105,31 @@ def programs(tier):
                                   println(show_int(Call("fa", Var("a")))), println(Call("bool_to_string", Call("fb", Var("b")))), println(show_int(Call("fc", Var("c")))),
                                   println(show_int(Field(Var("s"), "q")))], Unit))
     out.append({"prog": p, "family": "c19", "ident": "c19:user-struct-named-like-tuple-helper", "expect": "accept"})
+    # ---- two distinct types in one program that differ in ONE aspect only: each gets its own helper type / name in the Go text
+    A2, A3 = TArray(2, INT32), TArray(3, INT32)
+    arr2, arr3 = Array(Int(1), Int(2)), Array(Int(1), Int(2), Int(3))
+    pairs = {
+        "array-length-inside-tuple": (TTuple(INT32, A2), Tuple(Int(5), arr2), lambda t: Bin("+", Proj(t, 0), Call("array_get", Proj(t, 1), Int(1))),
+                                      TTuple(INT32, A3), Tuple(Int(6), arr3), lambda t: Bin("+", Proj(t, 0), Call("array_get", Proj(t, 1), Int(2)))),
+        "array-length-inside-ref": (TRef(A2), Call("ref", arr2), lambda t: Call("array_get", Call("ref_get", t), Int(1)),
+                                    TRef(A3), Call("ref", arr3), lambda t: Call("array_get", Call("ref_get", t), Int(2))),
+        "array-length-inside-nested-tuple": (TTuple(TTuple(BOOL, A2), INT32), Tuple(Tuple(Bool(True), arr2), Int(7)), lambda t: Block([Let("inner", Proj(t, 0), ty=TTuple(BOOL, A2))], Bin("+", Proj(t, 1), Call("array_get", Proj(Var("inner"), 1), Int(0)))),
+                                             TTuple(TTuple(BOOL, A3), INT32), Tuple(Tuple(Bool(True), arr3), Int(8)), lambda t: Block([Let("inner", Proj(t, 0), ty=TTuple(BOOL, A3))], Bin("+", Proj(t, 1), Call("array_get", Proj(Var("inner"), 1), Int(2))))),
+        "array-nesting-order": (TArray(2, A3), Array(arr3, arr3), lambda t: Call("array_get", Call("array_get", t, Int(1)), Int(2)),
+                                TArray(3, A2), Array(arr2, arr2, arr2), lambda t: Call("array_get", Call("array_get", t, Int(2)), Int(1))),
+        "tuple-element-order": (TTuple(INT32, BOOL), Tuple(Int(9), Bool(True)), lambda t: Proj(t, 0),
+                                TTuple(BOOL, INT32), Tuple(Bool(False), Int(10)), lambda t: Proj(t, 1)),
+        "ref-of-tuple-vs-tuple-of-ref": (TRef(TTuple(INT32, INT32)), Call("ref", Tuple(Int(11), Int(12))), lambda t: Block([Let("g", Call("ref_get", t), ty=TTuple(INT32, INT32))], Proj(Var("g"), 1)),
+                                         TTuple(TRef(INT32), INT32), Tuple(Call("ref", Int(13)), Int(14)), lambda t: Bin("+", Call("ref_get", Proj(t, 0)), Proj(t, 1))),
+    }
+    for aspect, (TA, va, ua, TB, vb, ub) in pairs.items():
+        p = Program("c19_differ_" + aspect.replace("-", "_"))
+        p.fn("fa", [("t", TA)], INT32, ua(Var("t")))
+        p.fn("fb", [("t", TB)], INT32, ub(Var("t")))
+        p.fn("ma", [], TA, va)
+        p.fn("mb", [], TB, vb)
+        p.fn("main", [], UNIT, Block([println(show_int(Call("fa", Call("ma")))), println(show_int(Call("fb", Call("mb"))))], Unit))
+        out.append({"prog": p, "family": "c19", "ident": f"c19:types-differ-only-in:{aspect}", "expect": "accept"})
     # ---- the same name declared in TWO packages (each kind of entity): both must stay distinct in the one Go file they end up in
     lib = ("package Lib\n\nenum Color { Red, Green(int32) }\nstruct Item { v: int32 }\ntrait Show { fn show(Self) -> string; }\n"
            "impl Show for Item { fn show(self: Item) -> string { \"lib-item \" + int32_to_string(self.v) } }\nimpl Show for int32 { fn show(self: int32) -> string { \"lib-int\" } }\n"
